@@ -18,6 +18,9 @@ func (c *WebserverConfig) verify() error {
 	if c.Listen.Read() == "" {
 		return fmt.Errorf("webserver.listen cannot be empty")
 	}
+	if err := verifyListenAddress("webserver.listen", c.Listen.Read()); err != nil {
+		return err
+	}
 	if c.ApiDisabled.Read() && !c.DashboardDisabled.Read() {
 		// The dashboard is a client of the API: start-up refuses (panics on) this combination.
 		return fmt.Errorf("webserver.api_disabled cannot be true while webserver.dashboard_disabled is false")
